@@ -273,6 +273,41 @@ def _reshape(ex, st, args, kwargs, node):
     raise Unsupported('reshape form')
 
 
+def _interp1d_1d(ex, st, XP, Y, kwargs, node):
+    """assumed, ORDER-FREE consequence of scipy's definition: f = interp1d(x, y, bounds_error=False, fill_value=(a, b)) for K >= 2
+    pairwise distinct nodes x in any order (scipy sorts them) and 1-D y returns, for each query point, either a fill value (a below
+    the smallest node, b above the largest) or a value on the segment between two of the y -- so between those two y values.
+    Nothing is claimed about WHICH two: enough for range statements, not for exact values."""
+    from .engine import FuncV
+    c = ex.c
+    K = XP.shape[0]
+    ex.oblige('safe.interp1d_two_points', st, to_int(K) >= 2, node)
+    ii, jj = c.fresh('ni'), c.fresh('nj')
+    ex.oblige('safe.interp1d_distinct_nodes', st, z3.ForAll([ii, jj], z3.Implies(z3.And(0 <= ii, ii < jj, jj < to_int(K)),
+                                                                                 XP.elem((ii,)) != XP.elem((jj,)))), node)
+    fv = kwargs.get('fill_value')
+    if not isinstance(fv, tuple) or len(fv) != 2 or not all(is_sym(x) or isinstance(x, (int, float)) for x in fv):
+        raise Unsupported('interp1d fill_value form')
+    a_, b_ = to_real(fv[0]) if is_sym(fv[0]) else z3.RealVal(fv[0]), to_real(fv[1]) if is_sym(fv[1]) else z3.RealVal(fv[1])
+
+    def call(ex2, st2, a2, k2, node2):
+        Q = arr(ex2, st2, a2[0])
+        if Q is None or Q.ndim != 1:
+            raise Unsupported('interp1d object called on a non 1-D argument')
+        W = Q.shape[0]
+        R = c.fresh_array('interp1d', (W,))
+        si = z3.Function('seg_i!%d' % next(c._fresh), INT, INT)
+        sj = z3.Function('seg_j!%d' % next(c._fresh), INT, INT)
+        k = c.fresh('qk')
+        yi, yj, rk = to_real(Y.elem((si(k),))), to_real(Y.elem((sj(k),))), R.elem((k,))
+        st2.assume(z3.ForAll([k], z3.Implies(z3.And(0 <= k, k < to_int(W)), z3.And(
+            0 <= si(k), si(k) < to_int(K), 0 <= sj(k), sj(k) < to_int(K),
+            z3.Or(rk == a_, rk == b_, z3.And(z3.If(yi <= yj, yi, yj) <= rk, rk <= z3.If(yi <= yj, yj, yi)))))))
+        c.last_interp = R
+        return st2.alloc(c, R)
+    return FuncV('pyfunc', call)
+
+
 @model('scipy.interpolate.interp1d')
 def _interp1d(ex, st, args, kwargs, node):
     """assumed: interp1d(x, y, axis=0, bounds_error=False, fill_value=(y[0], y[-1]), assume_sorted=True) for sorted x
@@ -281,6 +316,8 @@ def _interp1d(ex, st, args, kwargs, node):
     from .engine import FuncV
     c = ex.c
     XP, Y = arr(ex, st, args[0]), arr(ex, st, args[1])
+    if XP is not None and Y is not None and XP.ndim == 1 and Y.ndim == 1 and kwargs.get('bounds_error', True) is False:
+        return _interp1d_1d(ex, st, XP, Y, kwargs, node)
     if XP is None or Y is None or XP.ndim != 1 or Y.ndim != 2 or kwargs.get('axis', 0) != 0 or kwargs.get('bounds_error', True) is not False:
         raise Unsupported('interp1d form')
     fv = kwargs.get('fill_value')
